@@ -182,4 +182,414 @@ theorem lookup_dropLocals_ne (a n : Name) (h : n ≠ a) : ∀ e : Env,
       show (match (f.filter (fun p => p.1 ≠ n)).lookup a with | some m => some m | none => lookup a (dropLocals n (g :: gs))) = _
       rw [ih, filter_lookup_ne a n h]; rfl
 
+
+/-! ### brace stripping: the scan of the D8/D17 fix is TeX's "the argument is a single group" -/
+
+theorem texGroup_split : ∀ (r : List Tok) (d : Nat) (inner rest : List Tok),
+    texGroup d r = some (inner, rest) → ∃ e, e.isEg = true ∧ r = inner ++ e :: rest := by
+  intro r
+  induction r with
+  | nil => intro d inner rest h; simp [texGroup] at h
+  | cons t ts ih =>
+    intro d inner rest h
+    simp only [texGroup] at h
+    by_cases he : t.isEg = true
+    · simp only [he, if_true] at h
+      cases d with
+      | zero => simp at h; obtain ⟨rfl, rfl⟩ := h; exact ⟨t, he, rfl⟩
+      | succ d =>
+        simp only [Option.map_eq_some_iff] at h
+        obtain ⟨⟨a, b⟩, hab, heq⟩ := h
+        simp at heq; obtain ⟨rfl, rfl⟩ := heq
+        obtain ⟨e, hee, hr⟩ := ih d a b hab
+        exact ⟨e, hee, by simp [hr]⟩
+    · simp only [he] at h
+      by_cases hb : t.isBg = true
+      · simp only [hb, if_true, Bool.false_eq_true, if_false, Option.map_eq_some_iff] at h
+        obtain ⟨⟨a, b⟩, hab, heq⟩ := h
+        simp at heq; obtain ⟨rfl, rfl⟩ := heq
+        obtain ⟨e, hee, hr⟩ := ih (d + 1) a b hab
+        exact ⟨e, hee, by simp [hr]⟩
+      · simp only [hb, Bool.false_eq_true, if_false, Option.map_eq_some_iff] at h
+        obtain ⟨⟨a, b⟩, hab, heq⟩ := h
+        simp at heq; obtain ⟨rfl, rfl⟩ := heq
+        obtain ⟨e, hee, hr⟩ := ih d a b hab
+        exact ⟨e, hee, by simp [hr]⟩
+
+/-- does TeX's group reader consume exactly the whole list -/
+def closesExactly (d : Nat) (r : List Tok) : Bool :=
+  match texGroup d r with
+  | some (_, []) => true
+  | _ => false
+
+theorem closesExactly_map (x : Option (List Tok × List Tok)) (t : Tok) :
+    (match x.map (fun r => (t :: r.1, r.2)) with | some (_, []) => true | _ => false)
+      = (match x with | some (_, []) => true | _ => false) := by
+  cases x with
+  | none => rfl
+  | some r => obtain ⟨a, b⟩ := r; cases b <;> rfl
+
+theorem closesAtEnd_eq : ∀ (r : List Tok) (d : Nat), closesAtEnd (d + 1) r = closesExactly d r := by
+  intro r
+  induction r with
+  | nil => intro d; simp [closesAtEnd, closesExactly, texGroup]
+  | cons t ts ih =>
+    intro d
+    by_cases he : t.isEg = true
+    · have hb : t.isBg = false := eg_not_bg t he
+      cases d with
+      | zero =>
+        simp only [closesAtEnd, hb, he, closesExactly, texGroup]
+        cases ts <;> simp
+      | succ d =>
+        have := ih d
+        simp only [closesAtEnd, hb, he, closesExactly, texGroup, if_true, Bool.false_eq_true, if_false,
+          Nat.add_sub_cancel, closesExactly_map] at this ⊢
+        simpa using this
+    · by_cases hb : t.isBg = true
+      · have := ih (d + 1)
+        simp only [closesAtEnd, hb, he, closesExactly, texGroup, if_true, Bool.false_eq_true, if_false,
+          closesExactly_map] at this ⊢
+        simpa using this
+      · have := ih d
+        simp only [closesAtEnd, hb, he, closesExactly, texGroup, Bool.false_eq_true, if_false,
+          closesExactly_map] at this ⊢
+        simpa using this
+
+/-- the brace stripping of the code (D8/D17 fix) is exactly TeX's rule -/
+theorem stripDelimited_eq_texStrip (p : List Tok) : stripDelimited p = texStrip p := by
+  cases p with
+  | nil => rfl
+  | cons b r =>
+    by_cases hb : b.isBg = true
+    · cases r with
+      | nil => simp [stripDelimited, texStrip, hb, texGroup]
+      | cons x xs =>
+        have hc : closesAtEnd 0 (b :: x :: xs) = closesExactly 0 (x :: xs) := by
+          rw [← closesAtEnd_eq]; simp [closesAtEnd, hb]
+        simp only [stripDelimited, texStrip, hb, hc, closesExactly]
+        cases hg : texGroup 0 (x :: xs) with
+        | none => simp
+        | some res =>
+          obtain ⟨inner, rest⟩ := res
+          cases rest with
+          | nil =>
+            obtain ⟨e, _, hr⟩ := texGroup_split _ _ _ _ hg
+            simp [hr]
+          | cons y ys => simp
+    · simp [stripDelimited, texStrip, hb]
+
+/-! ### delimited parameters -/
+
+theorem isPrefix_eq : ∀ (d l : List Tok), isPrefix d l = true → d ++ l.drop d.length = l := by
+  intro d
+  induction d with
+  | nil => intro l _; simp
+  | cons a as ih =>
+    intro l h
+    cases l with
+    | nil => simp [isPrefix] at h
+    | cons b bs =>
+      simp only [isPrefix, Bool.and_eq_true, beq_iff_eq] at h
+      obtain ⟨rfl, h2⟩ := h
+      simp [ih bs h2]
+
+theorem texScan_split (d : List Tok) : ∀ (s : List Tok) (depth : Nat) (p rest : List Tok),
+    texScan d depth s = some (p, rest) → s = p ++ d ++ rest := by
+  intro s
+  induction s with
+  | nil => intro depth p rest h; simp [texScan] at h
+  | cons t ts ih =>
+    intro depth p rest h
+    simp only [texScan] at h
+    split at h
+    · rename_i hc
+      simp at h; obtain ⟨rfl, rfl⟩ := h
+      simpa using (isPrefix_eq d (t :: ts) hc.2).symm
+    · split at h
+      · simp only [Option.map_eq_some_iff] at h
+        obtain ⟨⟨a, b⟩, hab, heq⟩ := h
+        simp at heq; obtain ⟨rfl, rfl⟩ := heq
+        simp [ih _ _ _ hab]
+      · split at h
+        · cases depth with
+          | zero => simp at h
+          | succ k =>
+            simp only [Option.map_eq_some_iff] at h
+            obtain ⟨⟨a, b⟩, hab, heq⟩ := h
+            simp at heq; obtain ⟨rfl, rfl⟩ := heq
+            simp [ih _ _ _ hab]
+        · simp only [Option.map_eq_some_iff] at h
+          obtain ⟨⟨a, b⟩, hab, heq⟩ := h
+          simp at heq; obtain ⟨rfl, rfl⟩ := heq
+          simp [ih _ _ _ hab]
+
+theorem collectUntil_first (a : Tok) : ∀ (p r : List Tok), p.contains a = false →
+    collectUntil a (p ++ a :: r) = (p, r) := by
+  intro p
+  induction p with
+  | nil => intro r _; simp [collectUntil]
+  | cons x xs ih =>
+    intro r h
+    simp only [List.contains_cons, Bool.or_eq_false_iff, beq_eq_false_iff_ne] at h
+    have hx : x ≠ a := fun e => h.1 e.symm
+    simp [collectUntil, hx, ih r h.2]
+
+theorem matchLits_append (l rest : List Tok) : matchLits l (l ++ rest) = some rest := by
+  induction l with
+  | nil => rfl
+  | cons a as ih => simp [matchLits, ih]
+
+/-! ### the pattern walk -/
+
+theorem inDigits_digit : ∀ k < 10, inDigits (digitTok k) = true := by decide
+
+theorem matchGo_hash_idle (strip : Bool) (k : Nat) (hk : k < 10) (more : List Tok) (ps : Params) (s : List Tok) :
+    matchGo strip (hashTok :: digitTok k :: more) false false ps s = matchGo strip more false true ps s := by
+  have h1 : hashTok.isParam = true := rfl
+  simp [matchGo, h1, inDigits_digit k hk]
+
+theorem matchGo_hash_pending (strip : Bool) (k : Nat) (hk : k < 10) (more : List Tok) (ps : Params) (s : List Tok) :
+    matchGo strip (hashTok :: digitTok k :: more) false true ps s
+      = matchGo strip more false true (ps ++ [(readArgument s).1]) (readArgument s).2 := by
+  have h1 : hashTok.isParam = true := rfl
+  simp [matchGo, h1, inDigits_digit k hk]
+
+theorem matchGo_delim (a : Tok) (ha : a.isParam = false) (more : List Tok) (ps : Params) (s : List Tok) :
+    matchGo true (a :: more) false true ps s
+      = matchGo true more false false (ps ++ [some (stripDelimited (collectUntil a s).1)]) (collectUntil a s).2 := by
+  simp [matchGo, ha]
+
+theorem matchGo_lit (strip : Bool) (a : Tok) (ha : a.isParam = false) (more : List Tok) (ps : Params) (s : List Tok) :
+    matchGo strip (a :: more) false false ps s = matchGo strip more false false ps s.tail := by
+  simp [matchGo, ha]
+
+theorem matchGo_lits (strip : Bool) : ∀ (l : List Tok) (more : List Tok) (ps : Params) (s s' : List Tok),
+    (∀ t ∈ l, t.isParam = false) → matchLits l s = some s' →
+    matchGo strip (l ++ more) false false ps s = matchGo strip more false false ps s' := by
+  intro l
+  induction l with
+  | nil => intro more ps s s' _ h; simp [matchLits] at h; subst h; rfl
+  | cons a as ih =>
+    intro more ps s s' hl h
+    cases s with
+    | nil => simp [matchLits] at h
+    | cons b bs =>
+      simp only [matchLits] at h
+      split at h
+      · rw [List.cons_append, matchGo_lit strip a (hl a List.mem_cons_self)]
+        exact ih more ps bs s' (fun t ht => hl t (List.mem_cons_of_mem _ ht)) h
+      · cases h
+
+def texArgsP (pending : Bool) (ds : List (List Tok)) (s : List Tok) : Option (List (List Tok) × List Tok) :=
+  if pending then texArgs ([] :: ds) s else texArgs ds s
+def nf3ArgsP (pending : Bool) (ds : List (List Tok)) (s : List Tok) : Bool :=
+  if pending then nf3Args ([] :: ds) s else nf3Args ds s
+
+theorem noMathHead_spec (s : List Tok) (h : noMathHead s = true) :
+    ∀ t ts, skipBlanks s = t :: ts → t.isMath = false := by
+  intro t ts hs
+  simp [noMathHead, hs] at h; exact h
+
+/-- the pending undelimited parameter is read exactly as TeX reads it -/
+theorem pending_step (ds : List (List Tok)) (s : List Tok) (args : List (List Tok)) (rest : List Tok)
+    (h : texArgs ([] :: ds) s = some (args, rest)) (hn : nf3Args ([] :: ds) s = true) :
+    ∃ a r as, readArgument s = (some a, r) ∧ args = a :: as ∧ texArgs ds r = some (as, rest) ∧ nf3Args ds r = true := by
+  simp only [texArgs] at h
+  cases hu : texUndelimited s with
+  | none => simp [hu] at h
+  | some ar =>
+    obtain ⟨a, r⟩ := ar
+    simp only [hu, Option.map_eq_some_iff] at h
+    obtain ⟨⟨as, r'⟩, hx, heq⟩ := h
+    simp at heq; obtain ⟨rfl, rfl⟩ := heq
+    simp only [nf3Args, hu, Bool.and_eq_true] at hn
+    exact ⟨a, r, as, readArgument_of_texUndelimited s a r hu (noMathHead_spec s hn.1), rfl, hx, hn.2⟩
+
+theorem matchGo_params : ∀ (ds : List (List Tok)) (k : Nat) (pending : Bool) (ps : Params) (s : List Tok)
+    (args : List (List Tok)) (rest : List Tok),
+    k + ds.length ≤ 10 → (∀ d ∈ ds, ∀ t ∈ d, t.isParam = false) →
+    texArgsP pending ds s = some (args, rest) → nf3ArgsP pending ds s = true →
+    matchGo true (renderParams k ds) false pending ps s = .ok (ps ++ args.map some, rest) := by
+  intro ds
+  induction ds with
+  | nil =>
+    intro k pending ps s args rest _ _ h hn
+    cases pending with
+    | false =>
+      simp [texArgsP, texArgs] at h; obtain ⟨rfl, rfl⟩ := h
+      simp [renderParams, matchGo]
+    | true =>
+      simp only [texArgsP, nf3ArgsP, if_true] at h hn
+      obtain ⟨a, r, as, hr, rfl, hx, _⟩ := pending_step [] s args rest h hn
+      simp [texArgs] at hx; obtain ⟨rfl, rfl⟩ := hx
+      simp [renderParams, matchGo, hr]
+  | cons d ds ih =>
+    intro k pending ps s args rest hk hd h hn
+    have hk' : k < 10 := by simp at hk; omega
+    have hds : ∀ d' ∈ ds, ∀ t ∈ d', t.isParam = false := fun d' hd' => hd d' (List.mem_cons_of_mem _ hd')
+    -- first the `#k`: a pending undelimited parameter is read now
+    have key : ∀ (ps' : Params) (s' : List Tok) (args' : List (List Tok)),
+        texArgs (d :: ds) s' = some (args', rest) → nf3Args (d :: ds) s' = true →
+        matchGo true (d ++ renderParams (k + 1) ds) false true ps' s' = .ok (ps' ++ args'.map some, rest) := by
+      intro ps' s' args' h' hn'
+      cases d with
+      | nil =>
+        have := ih (k + 1) true ps' s' args' rest (by simp at hk ⊢; omega) hds
+          (by simpa [texArgsP] using h') (by simpa [nf3ArgsP] using hn')
+        simpa using this
+      | cons d0 dr =>
+        have hd0 : d0.isParam = false := hd _ List.mem_cons_self d0 List.mem_cons_self
+        have hdr : ∀ t ∈ dr, t.isParam = false := fun t ht => hd _ List.mem_cons_self t (List.mem_cons_of_mem _ ht)
+        simp only [texArgs] at h'
+        cases hsc : texScan (d0 :: dr) 0 s' with
+        | none => simp [hsc] at h'
+        | some pr =>
+          obtain ⟨p, r⟩ := pr
+          simp only [hsc, Option.map_eq_some_iff] at h'
+          obtain ⟨⟨as, r'⟩, hx, heq⟩ := h'
+          simp at heq; obtain ⟨rfl, rfl⟩ := heq
+          simp only [nf3Args, hsc, Bool.and_eq_true, Bool.not_eq_true'] at hn'
+          have hsplit := texScan_split _ _ _ _ _ hsc
+          have hcu : collectUntil d0 s' = (p, dr ++ r) := by
+            rw [hsplit]; simpa using collectUntil_first d0 p (dr ++ r) hn'.1
+          rw [List.cons_append, matchGo_delim d0 hd0, hcu]
+          simp only
+          rw [matchGo_lits true dr _ _ _ r hdr (matchLits_append dr r)]
+          have := ih (k + 1) false (ps' ++ [some (stripDelimited p)]) r as r' (by simp at hk ⊢; omega) hds
+            (by simpa [texArgsP] using hx) (by simpa [nf3ArgsP] using hn'.2)
+          rw [this, stripDelimited_eq_texStrip]; simp
+    cases pending with
+    | false =>
+      simp only [texArgsP, nf3ArgsP, Bool.false_eq_true, if_false] at h hn
+      simp only [renderParams, List.cons_append]
+      rw [matchGo_hash_idle true k hk']
+      exact key ps s args h hn
+    | true =>
+      simp only [texArgsP, nf3ArgsP, if_true] at h hn
+      obtain ⟨a, r, as, hr, rfl, hx, hnx⟩ := pending_step (d :: ds) s args rest h hn
+      simp only [renderParams, List.cons_append]
+      rw [matchGo_hash_pending true k hk', hr]
+      simp only
+      rw [key (ps ++ [some a]) r as hx hnx]; simp
+
+theorem texArgs_length : ∀ (ds : List (List Tok)) (s : List Tok) (args : List (List Tok)) (rest : List Tok),
+    texArgs ds s = some (args, rest) → args.length = ds.length := by
+  intro ds
+  induction ds with
+  | nil => intro s args rest h; simp [texArgs] at h; simp [h.1.symm]
+  | cons d ds ih =>
+    intro s args rest h
+    cases d with
+    | nil =>
+      simp only [texArgs] at h
+      cases hu : texUndelimited s with
+      | none => simp [hu] at h
+      | some ar =>
+        obtain ⟨a, r⟩ := ar
+        simp only [hu, Option.map_eq_some_iff] at h
+        obtain ⟨⟨as, r'⟩, hx, heq⟩ := h
+        simp at heq; obtain ⟨rfl, rfl⟩ := heq
+        simp [ih r as r' hx]
+    | cons d0 dr =>
+      simp only [texArgs] at h
+      cases hsc : texScan (d0 :: dr) 0 s with
+      | none => simp [hsc] at h
+      | some pr =>
+        obtain ⟨p, r⟩ := pr
+        simp only [hsc, Option.map_eq_some_iff] at h
+        obtain ⟨⟨as, r'⟩, hx, heq⟩ := h
+        simp at heq; obtain ⟨rfl, rfl⟩ := heq
+        simp [ih r as r' hx]
+
+/-! ### one macro call -/
+
+/-- **Delimited and undelimited parameters, any parameter text.**  For every parameter text of the grammar
+    (literal prefix, up to 9 parameters, each undelimited or delimited by any non-empty token sequence) and every
+    input on which TeX's matching is defined and NF-prog 3 holds (`nf3`: the text matched by a delimited parameter
+    does not contain the first token of its delimiter; no `$` as undelimited argument), `Definition.invoke`'s
+    pattern walk collects exactly TeX's arguments — shortest match up to the whole delimiter, outer braces of a
+    one-group argument removed — and leaves exactly TeX's rest. -/
+theorem matchPattern_of_texMatch (pt : PText) (s : List Tok) (args : List (List Tok)) (rest : List Tok)
+    (hn : pt.params.length ≤ 9) (hpre : ∀ t ∈ pt.pre, t.isParam = false)
+    (hdel : ∀ d ∈ pt.params, ∀ t ∈ d, t.isParam = false)
+    (h : texMatch pt s = some (args, rest)) (hnf : nf3 pt s = true) :
+    matchPattern (renderPText pt) s = .ok (none :: args.map some, rest) := by
+  unfold texMatch at h
+  unfold nf3 at hnf
+  cases hl : matchLits pt.pre s with
+  | none => simp [hl] at h
+  | some s' =>
+    simp only [hl] at h hnf
+    unfold matchPattern renderPText
+    rw [matchGo_lits true pt.pre _ _ s s' hpre hl]
+    have := matchGo_params pt.params 1 false [none] s' args rest (by omega) hdel
+      (by simpa [texArgsP] using h) (by simpa [nf3ArgsP] using hnf)
+    simpa using this
+
+/-- well-formed definition (NF-prog 5): what `\def` can store -/
+structure WFMacro (pt : PText) (items : List BItem) : Prop where
+  nparams : pt.params.length ≤ 9
+  pre : ∀ t ∈ pt.pre, t.isParam = false
+  delims : ∀ d ∈ pt.params, ∀ t ∈ d, t.isParam = false
+  body : ∀ it ∈ items, WFItem pt.params.length it
+  /-- a macro without any parameter text returns its stored text unchanged (`##` is undoubled by the inner `\def`) -/
+  nohash : pt.pre = [] → pt.params = [] → ∀ it ∈ items, ∀ c, it ≠ .hash c
+
+theorem texSubst_nohash (items : List BItem) (h0 : ∀ it ∈ items, WFItem 0 it)
+    (hh : ∀ it ∈ items, ∀ c, it ≠ .hash c) : texSubst items [] = renderBody items := by
+  induction items with
+  | nil => rfl
+  | cons it rest ih =>
+    have hr := ih (fun x hx => h0 x (List.mem_cons_of_mem _ hx)) (fun x hx => hh x (List.mem_cons_of_mem _ hx))
+    have hi := h0 it List.mem_cons_self
+    cases it with
+    | tok t => simp only [texSubst, renderBody, List.flatMap_cons, substItem, renderItem] at hr ⊢; rw [hr]
+    | par k => obtain ⟨h1, h2, _⟩ := hi; omega
+    | hash c => exact absurd rfl (hh _ List.mem_cons_self c)
+
+/-- **One macro call in the model = one macro call of TeX**, for every well-formed definition (any pattern of
+    delimited/undelimited parameters, any replacement text) and every input inside NF-prog on which TeX's call is
+    defined: same produced tokens, same rest of the input. -/
+theorem invokeDef_of_texCall (pt : PText) (items : List BItem) (s out rest : List Tok) (wf : WFMacro pt items)
+    (h : texCall pt items s = .ok (out, rest)) :
+    invokeDef (renderPText pt) (renderBody items) s = .ok (out, rest) := by
+  unfold texCall at h
+  cases hm : texMatch pt s with
+  | none => simp [hm] at h
+  | some ar =>
+    obtain ⟨args, rest'⟩ := ar
+    simp only [hm] at h
+    split at h
+    · rename_i hnf
+      simp only [Except.ok.injEq, Prod.mk.injEq] at h
+      obtain ⟨rfl, rfl⟩ := h
+      by_cases he : renderPText pt = []
+      · -- no parameter text at all
+        have hpre : pt.pre = [] := by
+          unfold renderPText at he; exact (List.append_eq_nil_iff.mp he).1
+        have hpar : pt.params = [] := by
+          unfold renderPText at he
+          have := (List.append_eq_nil_iff.mp he).2
+          cases hp : pt.params with
+          | nil => rfl
+          | cons d ds => rw [hp] at this; simp [renderParams] at this
+        have hm' : args = [] ∧ rest' = s := by
+          unfold texMatch at hm; simp [hpre, hpar, matchLits, texArgs] at hm; exact ⟨hm.1, hm.2.symm⟩
+        obtain ⟨rfl, rfl⟩ := hm'
+        have hb : ∀ it ∈ items, WFItem 0 it := by simpa [hpar] using wf.body
+        simp [invokeDef, invokeDefWith, he, texSubst_nohash items hb (wf.nohash hpre hpar)]
+      · have hp := matchPattern_of_texMatch pt s args rest' wf.nparams wf.pre wf.delims hm hnf
+        have hlen : args.length = pt.params.length := by
+          unfold texMatch at hm
+          cases hl : matchLits pt.pre s with
+          | none => simp [hl] at hm
+          | some s' => simp only [hl] at hm; exact texArgs_length _ _ _ _ hm
+        have hs : substBody (renderBody items) (none :: args.map some) = .ok (texSubst items args) :=
+          substGo_render args items (by simpa [hlen] using wf.body)
+        unfold matchPattern at hp
+        simp [invokeDef, invokeDefWith, he, hp, hs, Except.map]
+    · cases h
+
+
 end PlasVerif.Proofs.Macro
